@@ -254,12 +254,13 @@ pub fn v4_mapped(n: u8) -> IpAddr {
 }
 
 pub fn peer_id_for(index: u8) -> Hash20 {
-    // distinct client prefixes so the peer client statistics differ
+    // neighbouring indices (0,1), (2,3), .. share the 8-byte client prefix and differ only in the
+    // random tail (a client that rotates its id); other pairs are different clients
     let prefixes: [&[u8; 8]; 6] = [
         b"-TR2940-", b"-qB4250-", b"-UT355W-", b"-DE13F0-", b"-lt0D60-", b"M7-10-5-",
     ];
     let mut id = [0u8; 20];
-    id[..8].copy_from_slice(prefixes[(index as usize) % prefixes.len()]);
+    id[..8].copy_from_slice(prefixes[(index as usize / 2) % prefixes.len()]);
     for (i, b) in id.iter_mut().enumerate().skip(8) {
         *b = b'a' + ((index as usize + i) % 26) as u8;
     }
